@@ -931,6 +931,10 @@ func ident2(t, v string) ident { return ident{Type: t, Value: v} }
 var idPEACMEIdentifierV1 = asn1.ObjectIdentifier{1, 3, 6, 1, 5, 5, 7, 1, 31}
 
 func (ca *CA) validate(c *chal, thumbprint string) {
+	if f := ca.validatorFor(); f != nil { // validate_ext.go: the harness validates (per-order targets, IP identifiers)
+		ca.setOutcome(c, f(ca.validationOf(c, thumbprint)))
+		return
+	}
 	keyAuth := c.token + "." + thumbprint
 	name := strings.TrimPrefix(c.az.ident, "*.")
 	var perr *Problem
